@@ -4,13 +4,20 @@
 EXTENDS Subst
 
 \* ---- spelling -------------------------------------------------------------------------
+\* optional blanks of a reference: $t(<po>path<pc>,<ac>{<ao>"n"<co>:<cc>value<as>,<as>...<ao>}<pe>)
+\* (a configuration may substitute LooseSp for FkSp: the same references, written with blanks wherever JSON and the documented
+\* syntax allow them)
+TightSp == [po |-> <<>>, pc |-> <<>>, ac |-> <<"SP">>, ao |-> <<>>, co |-> <<>>, cc |-> <<"SP">>, as |-> <<"SP">>, pe |-> <<>>]
+LooseSp == [po |-> <<"SP">>, pc |-> <<"SP">>, ac |-> <<"SP", "SP">>, ao |-> <<"SP">>, co |-> <<"SP">>, cc |-> <<"TAB">>, as |-> <<"SP", "SP">>, pe |-> <<"SP">>]
+NoSp == [po |-> <<>>, pc |-> <<>>, ac |-> <<>>, ao |-> <<>>, co |-> <<>>, cc |-> <<>>, as |-> <<>>, pe |-> <<>>]
+FkSp == TightSp
 RECURSIVE UnparseX(_), ArgsJson(_)
 ArgsJson(args) ==
     IF args = <<>> THEN <<>>
     ELSE LET h == Head(args) IN
-         <<"QUOT">> \o h.nsym \o <<"QUOT", "COLON", "SP">>
+         <<"QUOT">> \o h.nsym \o <<"QUOT">> \o FkSp.co \o <<"COLON">> \o FkSp.cc
          \o (IF h.a.k = "num" THEN h.a.sym ELSE <<"QUOT">> \o UnparseX(h.a.c) \o <<"QUOT">>)
-         \o (IF Len(args) > 1 THEN <<"COMMA", "SP">> ELSE <<>>) \o ArgsJson(Tail(args))
+         \o (IF Len(args) > 1 THEN <<"COMMA">> \o FkSp.as ELSE <<>>) \o ArgsJson(Tail(args))
 
 UnparseX(v) ==
     IF v = <<>> THEN <<>>
@@ -20,8 +27,8 @@ UnparseX(v) ==
                                    \o (IF "kind" \in DOMAIN h THEN <<"COMMA", "SP">> \o FormatterText(h.kind, h.written, h.written # <<>>, [n |-> <<>>, c |-> <<"SP">>, s |-> <<>>]) ELSE <<>>)
                                    \o <<"SP", "RB", "RB">>
           ELSE IF h.k = "comp" THEN <<"LT">> \o h.n \o <<"GT">> \o UnparseX(h.c) \o <<"LT", "SL">> \o h.n \o <<"GT">>
-          ELSE <<"DOL", "t", "LP">> \o h.tosym
-               \o (IF h.args = <<>> THEN <<>> ELSE <<"COMMA", "SP", "LB">> \o ArgsJson(h.args) \o <<"RB">>) \o <<"RP">>)
+          ELSE <<"DOL", "t", "LP">> \o FkSp.po \o h.tosym \o FkSp.pc
+               \o (IF h.args = <<>> THEN <<>> ELSE <<"COMMA">> \o FkSp.ac \o <<"LB">> \o FkSp.ao \o ArgsJson(h.args) \o FkSp.ao \o <<"RB">> \o FkSp.pe) \o <<"RP">>)
          \o UnparseX(Tail(v))
 
 \* entry -> file entries (a plural entry is written as its suffixed member keys)
